@@ -7,7 +7,7 @@ T0 = 2000000000
 RULE = ('random histories of relay (strictly increasing whole-second virtual times; secobj in every zone of a 6-zone tree, zone objects, none) / '
         'disconnect / reconnect+ReplayLog / rotate (incl. twice per second) / clean and crash restart of the sender / log::SetLogPosition from the peer / '
         'incoming message with timestamp / ApiTimerHandler, over 6 endpoints with log_duration in {0,-1,30,600,3600,86400}; '
-        'small two-file logs cut at EVERY byte offset of either file, then replayed; bytes overwritten at sampled offsets with sampled values '
+        'small two-file logs cut at EVERY byte offset of either file, then replayed (thorough: also 4-file logs with 23 entries, every offset of every file); reconnects in which the peer\'s own replay emission (same code, same situation) is handled before ours starts; bytes overwritten at sampled offsets with sampled values '
         '(length header, terminator, structure, message text, timestamp digits). '
         'non-trivial = at least one persisted event and one replay that delivered something; distinct = distinct script text')
 TRUSTED = ['model: coq/Replay/RlBytes.v, RlModel.v (transcription of ApiListener::PersistMessage/RotateLogFile/OpenLogFile/ReplayLog/ApiTimerHandler/'
@@ -51,7 +51,7 @@ def gen_history(rnd, n):
         elif r < 0.52:
             t += rnd.choice((0, 0, 1, 3, 20))
             e = rnd.choice((1, 2, 3, 3, 4, 4, 5, 6))
-            lines += ['now %d' % t, 'rl_ls', 'rl_conn e=%d' % e, 'rl_ls']
+            lines += ['now %d' % t, 'rl_ls', 'rl_conn e=%d%s' % (e, ' mirror=1' if rnd.random() < 0.12 else ''), 'rl_ls']
             conn.add(e)
         elif r < 0.62:
             e = rnd.choice((1, 2, 3, 4, 5, 6))
@@ -111,6 +111,47 @@ def gen_trunc(rnd, cases, nlogs):
             for k in range(len(b) + 1):
                 lines = base + ['now %d' % (t + 2), 'rl_ls', 'rl_trunc f=%s k=%d' % (f, k), 'rl_ls', 'rl_conn e=%d' % e, 'rl_ls']
                 cases.append({'lines': lines, 'tags': {'family': 'truncate-every-offset'}})
+
+
+def gen_trunc_big(rnd, cases, nlogs):
+    """>= 3 rotated files + current, >= 20 entries, EVERY byte offset of EVERY file"""
+    for _ in range(nlogs):
+        t = T0
+        lines = ['now %d' % t, 'rl_init dur=86400,86400,86400,86400,86400,86400']
+        mid = 0
+        files = []
+        for nf in (7, 7, 6, 3):
+            b = ''
+            for i in range(nf):
+                t += rnd.choice((1, 2, 7))
+                mid += 1
+                sec = rnd.choice(SECS)
+                lines += ['now %d' % t, 'rl_relay sec=%s id=%d' % (sec, mid)]
+                b += enc_entry(t, sec, mid)
+            if len(files) < 3:
+                files.append((str(t + 1), b))
+                t += 3
+                lines += ['now %d' % t, 'rl_rotate']
+            else:
+                files.append(('cur', b))
+        e = rnd.choice((1, 2, 3, 5))
+        for (f, b) in files:
+            for k in range(len(b) + 1):
+                cases.append({'lines': lines + ['now %d' % (t + 2), 'rl_ls', 'rl_trunc f=%s k=%d' % (f, k), 'rl_ls', 'rl_conn e=%d' % e, 'rl_ls'],
+                              'tags': {'family': 'truncate-every-offset-big'}})
+
+
+def gen_mirror(rnd, cases, n):
+    """both nodes kept a log for each other; the peer's replay (same code) is handled before ours starts"""
+    for _ in range(n):
+        n1, n2 = rnd.choice(((2, 1), (1, 2), (3, 1), (2, 2), (1, 0), (0, 2)))
+        base, name, b1, b2, t = small_log(rnd, n1, n2)
+        e = rnd.choice((1, 2, 3, 5))
+        pre = []
+        if rnd.random() < 0.4:   # an earlier honest confirmation
+            pre = ['rl_conn e=%d' % e, 'rl_ack e=%d p=%d' % (e, T0 + rnd.randint(1, 4)), 'rl_disc e=%d' % e]
+        cases.append({'lines': base + pre + ['now %d' % (t + rnd.choice((2, 15, 60))), 'rl_ls', 'rl_conn e=%d mirror=1' % e, 'rl_ls'],
+                      'tags': {'family': 'mirror-setlogposition'}})
 
 
 def byte_choices(rnd, orig):
@@ -186,6 +227,9 @@ def generate(seed, tier):
     for i in range(nh):
         cases.append({'lines': gen_history(rnd, rnd.choice((8, 15, 30, 60))), 'tags': {'family': 'random-history'}})
     gen_trunc(rnd, cases, {'quick': 3, 'thorough': 20, 'search': 4}.get(tier, 3))
+    if tier == 'thorough':
+        gen_trunc_big(rnd, cases, 2)
+    gen_mirror(rnd, cases, {'quick': 150, 'thorough': 1000, 'search': 300}.get(tier, 150))
     gen_corrupt(rnd, cases, {'quick': 40, 'thorough': 300, 'search': 80}.get(tier, 40), 25)
     gen_corrupt_any(rnd, cases, {'quick': 30, 'thorough': 200, 'search': 60}.get(tier, 30), 25)
     return cases
